@@ -150,7 +150,7 @@ static void body(void) {
     int learner = vx_choose("learner", 3), fam = vx_choose("data", 2), mode = vx_choose("mode", 2);
     /* mode 0: all schedules with <= B preemptions, no merging; mode 1: unbounded preemptions, merged on the canonical state */
     if (mode == 0) vs_preemption_bound = driver == 0 ? (vx_thorough() ? 3 : 2) : (vx_thorough() ? 2 : 1);
-    else { if (driver == 1 && !vx_thorough()) vx_require(0); vs_prune_cb = prune_cb; CFG = vx_hash(&learner, sizeof learner, (uint64_t)(driver * 4 + fam)); }
+    else { vs_prune_cb = prune_cb; CFG = vx_hash(&learner, sizeof learner, (uint64_t)(driver * 4 + fam)); }
     int nw = driver == 0 ? 2 : 3, nobj = learner == 2 ? 9 : 6, groups = learner == 2 ? 3 : 2;
     result *ref = reference(learner, nw, nw, groups, nobj, fam);
     result *seq = reference(learner, 1, nw, groups, nobj, fam);
@@ -217,7 +217,7 @@ int main(int argc, char **argv) {
 #else
   vx_describe("drivers", "A: BootstrapRandomGroupsCV 2 workers x {PLS,MLR,LDA} x 2 data sets; B: 3 workers (decision horizon 150); C: two user threads, each one of {random_kfold_group_generator, train_test_split, KMeansppCenters} after seeding; E: nthreads in {1,2,3,4,6,8} with 24 iterations under the default schedule; D: YScrambling (PLS, MLR) x (LOO, bootstrap validation with its hard-coded 4 workers x 100 iterations), 1 scrambling iteration, decision horizon 12 (20 thorough; quick: MLR on one data set only), preemption bound 1");
   vx_describe("scheduling points", "pthread_create, thread exit, blocking pthread_join, entry of srand_/rand_/randInt/randDouble; exactly one thread runs at a time; enabled set ordered running-first then ascending id");
-  vx_describe("bounds", "mode 0: all schedules with at most B preemptions (A, C: 2 quick / 3 thorough; B: 1 / 2), no state merging; mode 1: unbounded preemptions with merging on the canonical state (per-thread run state, draws, hash of received values; last srand_ argument in global order and draws since), state cap 200000 (A, C in both tiers, B in thorough)");
+  vx_describe("bounds", "mode 0: all schedules with at most B preemptions (A, C: 2 quick / 3 thorough; B: 1 / 2), no state merging; mode 1: unbounded preemptions with merging on the canonical state (per-thread run state, draws, hash of received values; last srand_ argument in global order and draws since), state cap 200000 (A, B, C in both tiers)");
   vx_describe("oracle", "every complete schedule: result bit-identical to the default schedule and within 1e-12 of the single-thread run; concurrent seeded callers each equal their stand-alone outcome");
   vx_set_dev_bound(1000000, 1000000);   /* preemptions are bounded per driver by vsched */
   vx_set_shard_depth(3);
